@@ -102,6 +102,14 @@ func (p *Processor) handleCleanup(ctx context.Context) {
 			} else {
 				gs = p.gs
 			}
+			if gs == nil {
+				// No guardian set known yet (VAA injected before the first set update):
+				// there are no guardians to count misses for.
+				p.logger.Info("VAA considered settled before guardian set initialization",
+					zap.String("digest", hash),
+					zap.Duration("delta", delta))
+				continue
+			}
 
 			hasSigs := len(s.signatures)
 			wantSigs := CalculateQuorum(len(gs.Keys))
